@@ -40,7 +40,7 @@ impl Child {
         if self.proc.is_some() {
             return;
         }
-        let exe = std::env::current_exe().expect("current_exe");
+        let exe = crate::fw::self_exe().expect("current_exe");
         let mut c = Command::new(exe);
         c.arg("--child").arg(&self.id).arg(&self.mode);
         for (k, v) in &self.envs {
